@@ -8,8 +8,10 @@ implementation's actual all_subclasses() iteration order (Python set order: addr
 handed to the model, so model-vs-implementation is exact; the spec check never looks at it."""
 from __future__ import annotations
 
+import glob
 import itertools
 import json
+import os
 import random
 import subprocess
 import sys
@@ -28,20 +30,21 @@ RULE = ("hierarchies = a root with 1..3 children, each with 0..3 children of its
         "module (a few in a fresh interpreter), as Serializable subclasses with decode_into_subclasses on / off / overridden "
         "half-way, or as plain dataclasses; all fields defaulted or all required. Sources: an instance of every class at or below "
         "the class loaded through (root and intermediate classes), hand-written dicts (missing keys, unknown keys, unions of "
-        "siblings' fields, bogus/foreign type entries), and holder classes reaching the hierarchy through a dataclass-typed "
+        "siblings' fields, bogus/foreign type entries), hierarchies where one class has a field(init=False), and holder classes reaching the hierarchy through a dataclass-typed "
         "field, List[..] and Dict[str, ..] (one and two levels deep). Each case carries 2 save_dc_types x 3 drop_extra_fields "
         "observations. Non-trivial = the dict has at least one key the loading class does not know or a type entry; distinct by "
         "full case.")
 TRUSTED = ["dataclasses.fields / __subclasses__ / the import system, as observed through introspection of the created classes "
            "(names, direct bases, init fields read off the real classes form the model's class table)"]
-ASSUMPTIONS = ["every field is an init field with a plain int payload (or a dataclass / List / Dict[str, .] of dataclasses in the "
+ASSUMPTIONS = ["every field has a plain int payload (or a dataclass / List / Dict[str, .] of dataclasses in the "
                "holder classes); a field name has one type throughout a hierarchy; classes live at module level (to_dict refuses "
                "to record function-local classes)"]
 EXHAUSTIVE = {"quick": False, "thorough": False}
 
 POOL1 = ["b", "c"]
 POOL2 = ["b", "c", "d"]
-DEFAULTS = {"a": 10, "b": 20, "c": 30, "d": 40, "e": 50, "y": 60}
+DEFAULTS = {"a": 10, "b": 20, "c": 30, "d": 40, "e": 50, "y": 60, "n": 70}
+NONINIT = {"n"}          # generated as  n: int = field(default=70, init=False)
 
 
 # --------------------------------------------------------------------------------------------------
@@ -219,10 +222,15 @@ def pairs(classes):
     return [(v, c["name"]) for c in classes for v in [c["name"]] + anc[c["name"]]]
 
 
+def corpus():
+    d = os.path.join(os.path.dirname(os.path.dirname(os.path.dirname(os.path.abspath(__file__)))), "corpus", "C14")
+    return [json.load(open(f)) for f in sorted(glob.glob(os.path.join(d, "*.json")))]
+
+
 def gen(tier, seed):
     rng = random.Random(f"C14-{seed}")
     fam = small_family()
-    cases = []
+    cases = corpus()                      # minimised past failures first
     if tier == "quick":
         hs = rng.sample(fam, min(800, len(fam)))
         n_orders, n_big, n_hold, n_fresh = 2, 40, 300, 16
@@ -252,6 +260,15 @@ def gen(tier, seed):
                     cases.append(dict(setup=setup, via=via, src={"inst": instance_of(d, fields[d], rng)}, fresh=False))
                 if tier != "quick" or idx % 2 == 1:
                     cases.append(dict(setup=setup, via=rng.choice(inner), src={"raw": raw_dict(classes, fields, rng)}, fresh=False))
+    # a class with a field(init=False): instances only (the field is written by to_dict like any other)
+    for _ in range(n_hold // 2):
+        classes = [dict(c, own=list(c["own"])) for c in (rng.choice(fam) if rng.random() < 0.8 else random_big(rng))]
+        rng.choice(classes[1:])["own"].append("n")
+        fields = all_fields(classes)
+        order = rng.choice(topo_orders(classes, rng, 4))
+        setup = apply_config(classes, order, rng.choice(KW_CONFIGS), rng.random() < 0.25)
+        via, d = rng.choice(pairs(classes))
+        cases.append(dict(setup=setup, via=via, src={"inst": instance_of(d, fields[d], rng)}, fresh=False))
     for _ in range(n_hold):
         cases.append(holder_case(rng.choice(fam) if rng.random() < 0.7 else random_big(rng), rng))
     # the same kind of cases, each in an interpreter of its own
@@ -353,7 +370,8 @@ def _source(setup):
 
     for c in setup["classes"]:
         lines += ["@dataclass", head(c["name"], c["bases"], c["kw"])]
-        body = [f"    {f}: int" + ("" if setup["req"] else f" = {DEFAULTS[f]}") for f in c["own"]]
+        body = [f"    {f}: int = field(default={DEFAULTS[f]}, init=False)" if f in NONINIT else
+                f"    {f}: int" + ("" if setup["req"] else f" = {DEFAULTS[f]}") for f in c["own"]]
         lines += body or ["    pass"]
         lines.append("")
     for hcls in setup["holders"]:
@@ -409,7 +427,11 @@ def _build_value(ns, v):
     if isinstance(v, int):
         return v
     if "c" in v:
-        return ns[v["c"]](**{k: _build_value(ns, x) for k, x in v["f"]})
+        obj = ns[v["c"]](**{k: _build_value(ns, x) for k, x in v["f"] if k not in NONINIT})
+        for k, x in v["f"]:
+            if k in NONINIT:
+                setattr(obj, k, _build_value(ns, x))
+        return obj
     if "l" in v:
         return [_build_value(ns, x) for x in v["l"]]
     return {k: _build_value(ns, x) for k, x in v["d"]}
@@ -465,11 +487,12 @@ def _run_one(case):
         kws.update({h["name"]: h["kw"] for h in setup["holders"]})
         hier = []
         for c in classes:
-            fs = [[f.name, fty(f.type), dflt(f)] for f in S.get_init_fields(c).values()]
-            assert len(fs) == len(dataclasses.fields(c)), "non-init field"
+            init = set(S.get_init_fields(c))
+            fs = [[f.name, fty(f.type), dflt(f), f.name in init] for f in dataclasses.fields(c)]
             hier.append([c.__name__, [inside[b] for b in c.__bases__ if b in inside], fs, kws[c.__name__]])
         expect = all_fields(setup["classes"])
         for n, _, fs, _ in hier:
+            assert all((f[0] not in NONINIT) == f[3] for f in fs), (n, fs)
             if n in expect:
                 assert sorted(x[0] for x in fs) == sorted(expect[n]), (n, fs, expect[n])
         dis = [[c.__name__, bool(getattr(c, "decode_into_subclasses", False))] for c in classes]
@@ -527,7 +550,8 @@ class _H:
         self.order = [c[0] for c in hier]
         self.bases = {c[0]: c[1] for c in hier}
         self.fields = {c[0]: [f[0] for f in c[2]] for c in hier}
-        self.required = {c[0]: [f[0] for f in c[2] if f[2] is None] for c in hier}
+        self.required = {c[0]: [f[0] for f in c[2] if f[2] is None and f[3]] for c in hier}
+        self.noninit = any(not f[3] for c in hier for f in c[2])
         self.defaults = {c[0]: {f[0]: f[2][1] for f in c[2] if f[2] is not None} for c in hier}
         self.kw = {c[0]: c[3] for c in hier}
         self.anc = {}
@@ -685,7 +709,8 @@ def signature(case, obs, reason):
     j = _judge(case, obs)
     if not j:
         return "coq-spec-only"
-    return f"{j[0]}:{j[1]}".replace(" ", "_")
+    h = _H(obs["hier"])
+    return f"{j[0]}:{j[1]}".replace(" ", "_") + (":noninit" if h.noninit else "")
 
 
 def _nontrivial_probe(h, via, p):
@@ -708,7 +733,7 @@ def features(case, obs):
     out = {"kind": s["kind"], "n_classes": len(s["classes"]), "req": s["req"], "fresh": bool(case.get("fresh")),
            "src": "holder" if s["holders"] else ("inst" if "inst" in src else "raw"),
            "via": "root" if case["via"] == "Base" else ("holder" if case["via"] in ("H", "HS", "O") else "intermediate"),
-           "enabled(via)": h.enabled(case["via"])}
+           "enabled(via)": h.enabled(case["via"]), "has-init=False-field": h.noninit}
     defined = [c["name"] for c in s["classes"]]
     for n, order in obs["enum"]:
         if n == "Base" and len(order) > 1:
@@ -776,7 +801,7 @@ def _outcome(o):
 def to_coq(case, obs):
     hier = clist([
         f"mkc {cstr(n)} {cstrlist(bs)} "
-        + clist([f"mkf {cstr(f)} {_cfty(t)} {copt(_cvalue(d[1])) if d is not None else 'None'}" for f, t, d in fs])
+        + clist([f"mkf {cstr(f)} {_cfty(t)} {copt(_cvalue(d[1])) if d is not None else 'None'} {cbool(i)}" for f, t, d, i in fs])
         + f" {copt(cbool(kw)) if kw is not None else 'None'}"
         for n, bs, fs, kw in obs["hier"]])
     dis = clist([cpair(cstr(n), cbool(b)) for n, b in obs["dis"]])
@@ -826,6 +851,30 @@ def shrink(case):
             continue
         s2 = dict(s, classes=[d for d in s["classes"] if d["name"] != n])
         yield dict(case, setup=s2)
+    # drop one field of a holder class (from the class and from every instance of it)
+    if "inst" in src and s["holders"]:
+        def strip(v, cls_names, fname):
+            if isinstance(v, dict) and "c" in v:
+                fs = [[k, strip(x, cls_names, fname)] for k, x in v["f"] if not (v["c"] in cls_names and k == fname)]
+                return {"c": v["c"], "f": fs}
+            if isinstance(v, dict) and "l" in v:
+                return {"l": [strip(x, cls_names, fname) for x in v["l"]]}
+            if isinstance(v, dict) and "d" in v:
+                return {"d": [[k, strip(x, cls_names, fname)] for k, x in v["d"]]}
+            return v
+
+        for hi, hc in enumerate(s["holders"]):
+            if len(hc["fields"]) < 2:
+                continue
+            owners = {hc["name"]} | {h2["name"] for h2 in s["holders"] if hc["name"] in h2["bases"]}
+            for fi, (fname, _, _) in enumerate(hc["fields"]):
+                h2 = dict(hc, fields=hc["fields"][:fi] + hc["fields"][fi + 1:])
+                s2 = dict(s, holders=s["holders"][:hi] + [h2] + s["holders"][hi + 1:])
+                yield dict(case, setup=s2, src={"inst": strip(src["inst"], owners, fname)})
+        # load the inner holder directly
+        v = src["inst"]
+        if v["c"] == "O":
+            yield dict(case, setup=dict(s, holders=[h2 for h2 in s["holders"] if h2["name"] != "O"]), via="H", src={"inst": v["f"][0][1]})
     # fewer items in lists / dicts of the instance
     if "inst" in src:
         def variants(v):
